@@ -142,6 +142,9 @@ func (a *TermsCalculator) Finish() {
 
 	var notOther int
 	for _, bucket := range a.bucketsList {
+		// let the aggregations nested in this bucket finish as well
+		// (a nested terms aggregation sorts and trims its own buckets there)
+		bucket.Finish()
 		notOther += int(bucket.Aggregations()["count"].(search.MetricCalculator).Value())
 	}
 	a.other = a.total - notOther
